@@ -15,7 +15,8 @@ GUARDS = [("StrictFilter", ["PrefetchTrafficConfined"]),
           ("HonourNoPrefetch", ["NoPrefetchLandmarkNoTraffic"]),
           ("CapAtBlobSize", ["ConfiguredSizeCapped"]),
           ("BgAllFiles", ["AfterBackgroundFetchOfflineReadable"]),
-          ("WaitHonoursTimeout", ["WaitNeverStuck"])]
+          ("WaitHonoursTimeout", ["WaitNeverStuck"]),
+          ("ThresholdOnEffective", ["WaitNilOnlyIfEndedOrAsync"])]
 INTERNAL = ("TypeOK", "OnceRunsOnce")
 
 
@@ -30,23 +31,29 @@ def layers(seed, thorough):
     L = []
     # prefetch landmark, files of several chunks
     L.append(dict(id="lm", ents=[dict(name="a/"), dict(name="a/p1", size=sz(600, 900)), dict(name="p2", size=sz(300, 600)),
-                                 dict(name="b/"), dict(name="b/n1", size=sz(700, 1100)), dict(name="n2", size=sz(300, 700))],
-                  prio=["a/p1", "p2"], chunk=400, minchunk=0, comp="gzip", landmark="build", cs=256))
+                                 dict(name="b/"), dict(name="b/n1", size=sz(950, 1150)), dict(name="n2", size=sz(300, 700))],
+                  prio=["a/p1", "p2"], chunk=300, minchunk=0, comp="gzip", landmark="build", cs=256))
     # the same shape as `tar -C dir .` writes it: root entry "./" and "./"-prefixed names
     L.append(dict(id="lmdot", ents=[dict(name="./"), dict(name="./a/"), dict(name="./a/p1", size=sz(500, 900)),
-                                    dict(name="./p2", size=sz(300, 600)), dict(name="./n1", size=sz(500, 900))],
+                                    dict(name="./p2", size=sz(300, 600)), dict(name="./n1", size=sz(1600, 1900)), dict(name="./z9", size=sz(200, 400))],
                   prio=["./a/p1", "./p2"], chunk=500, minchunk=0, comp="gzip", landmark="build", cs=256))
     # no-prefetch landmark
-    L.append(dict(id="nolm", ents=[dict(name="f1", size=sz(400, 700)), dict(name="d/"), dict(name="d/f2", size=sz(300, 600))],
+    L.append(dict(id="nolm", ents=[dict(name="f1", size=sz(400, 700)), dict(name="d/"), dict(name="d/f2", size=sz(950, 1100)), dict(name="f3", size=sz(200, 400))],
                   prio=[], chunk=300, minchunk=0, comp="gzip", landmark="build", cs=256))
     # no landmark at all (plain stargz writer): configured size decides
-    L.append(dict(id="none", ents=[dict(name="f1", size=sz(400, 600)), dict(name="d/"), dict(name="d/f2", size=sz(600, 900)),
+    L.append(dict(id="none", ents=[dict(name="f1", size=sz(400, 600)), dict(name="d/"), dict(name="d/f2", size=sz(1100, 1300)),
                                    dict(name="f3", size=sz(300, 500))],
                   prio=[], chunk=350, minchunk=0, comp="gzip", landmark="none", cs=200))
     # several files in one compressed stream (min chunk size): the pre-reader caches neighbours
     L.append(dict(id="grp", ents=[dict(name="g1", size=sz(200, 300)), dict(name="g2", size=sz(200, 300)), dict(name="d/"),
                                   dict(name="d/g3", size=sz(200, 300)), dict(name="g4", size=sz(200, 300)), dict(name="g5", size=sz(900, 1200))],
                   prio=["g1", "g2"], chunk=100000, minchunk=700, comp="gzip", landmark="build", cs=256))
+    # a file whose compressed remainder exceeds the 2 MiB an on-demand chunk read pulls into the blob cache
+    # (estargz fileReader.ReadAt peeks min(2 MiB, rest of the file)): only then does a single-chunk read leave
+    # registry chunks of the same file unfetched
+    L.append(dict(id="big", ents=[dict(name="p0", size=sz(300, 500)), dict(name="d/"), dict(name="d/big", size=3 * 900000 - sz(1, 5000)),
+                                  dict(name="z9", size=sz(300, 500))],
+                  prio=["p0"], chunk=900000, minchunk=0, comp="gzip", landmark="build", cs=262144))
     if thorough:
         L.append(dict(id="zst", ents=[dict(name="./"), dict(name="./z1", size=sz(600, 900)), dict(name="./d/"), dict(name="./d/z2", size=sz(400, 700)),
                                       dict(name="./z3", size=sz(500, 800))],
@@ -65,26 +72,34 @@ def variants(base, lay, thorough):
     size, off, loff, lm = lay["size"], lay["off"], lay["loff"], lay["lm"]
     V = []
 
-    def v(tag, cfg, thr, pcs=0, np=1, nw=1, nb=0, tmo=300, rd=(), ro=0):
+    def v(tag, cfg, thr, pcs=0, np=1, nw=1, nb=0, tmo=300, rd=(), ro=0, pt=()):
         d = dict(base)
         d.update(id="%s.%s" % (base["id"], tag), cfg=cfg, thr=thr, pcs=pcs, np=np, nw=nw, nb=nb, tmo=tmo, cache="dir",
-                 rd=[x for x in rd if x <= lay["nf"]], ro=ro)
+                 rd=sorted({x for x in rd if 0 < x <= lay["nf"]}), ro=ro, pt=[x for x in pt if x in lay["pt"]])
         V.append(d)
     nf = lay["nf"]
+    # a file of >= 3 chunks for single-chunk reads: a non-prioritized one if there is one
+    # (not the last file of the blob: its tail shares registry chunks with the TOC, which is fetched at mount time)
+    cand = [x for x in lay["pt"] if x not in lay["prio"] and x != nf] or [x for x in lay["pt"] if x != nf] or lay["pt"]
+    part = sorted(cand, key=lambda x: -lay["nch"][x - 1])[:1]
+    pf = part[0] if part else nf
     if lm == "prefetch":
         v("w", 10 ** 6, 0, np=2, nw=1, rd=[1])                                  # two Prefetch callers and a waiter, no threshold
         v("async", 10 ** 6, max(1, loff // 2), nw=2, pcs=2 * base["cs"])       # two waiters, threshold below the landmark offset
-        v("bg", 10 ** 6, 0, nw=0, nb=1, tmo=1000, rd=[2, nf], ro=1)            # background fetch, prioritized tasks, registry off at the end
+        v("below", 10 ** 6, loff + 200, nw=2, rd=[1])                           # configured size > threshold > landmark offset: no early release
+        v("bg", 10 ** 6, 0, nw=0, nb=1, tmo=1000, rd=([pf] if base["id"] == "big" else [2, pf]), ro=1, pt=part)   # background fetch, prioritized tasks, single-chunk reads, registry off at the end
     elif lm == "noprefetch":
         v("w", 10 ** 6, 0, np=2, nw=1, rd=[2])
-        v("bg", size // 2, 1, nw=1, nb=1, rd=[nf], ro=1)
+        v("bg", size // 2, 1, nw=1, nb=1, rd=[pf], ro=1, pt=part)
     else:
         mid = off[1] if len(off) > 1 else size // 2
         v("exact", mid, 0, nw=1, rd=[1, 2])                                     # configured size = offset of a file ( < versus <= )
-        v("mid", mid + 150, mid, nw=1, nb=1, pcs=2 * base["cs"], rd=[], ro=1)  # ends inside that file; threshold just below
+        v("mid", mid + 150, mid, nw=1, nb=1, pcs=2 * base["cs"], rd=[pf], ro=1, pt=part)  # ends inside that file; threshold just below
         v("big", size + 1000, size + 500, nw=2, rd=[nf])                        # beyond the blob: capped, and the cap is below the threshold
+    if base["id"] == "big":
+        V = [x for x in V if x["id"] == "big.bg"]        # megabytes per read: only the scenario it was built for
     if not thorough:
-        keep = {"lm.w", "lm.async", "lmdot.bg", "nolm.w", "nolm.bg", "none.exact", "none.big", "grp.bg", "lmdot.w"}
+        keep = {"lm.w", "lm.async", "lm.below", "lmdot.bg", "nolm.w", "nolm.bg", "none.exact", "none.big", "grp.bg", "big.bg"}
         V = [x for x in V if x["id"] in keep]
     return V
 
@@ -102,13 +117,38 @@ def tla(v):
     raise ValueError(v)
 
 
-FIELDS = ["id", "nf", "off", "span", "pre", "prf", "prio", "lm", "loff", "size", "cs", "cfg", "thr", "f0", "rd", "ro", "np", "nw", "nb"]
+FIELDS = ["id", "nf", "off", "span", "pre", "prf", "prio", "lm", "loff", "size", "cs", "cfg", "thr", "f0", "rd", "ro", "pt", "np", "nw", "nb"]
 
 
 def scen_module(scens):
     base = open(os.path.join(SPEC, "PrefetchScen.tla")).read()
     recs = ",\n    ".join("[" + ", ".join("%s |-> %s" % (k, tla(s[k])) for k in FIELDS) + "]" for s in scens)
     return re.sub(r"(?m)^GenScen == .*$", "GenScen == {\n    " + recs.replace("\\", "\\\\") + "}", base)
+
+
+def directed_walk(inits, edges, preds, maxlen=40):
+    """Shortest walk from an initial state that takes, in this order, one edge satisfying each predicate."""
+    out = collections.defaultdict(list)
+    for e in edges:
+        out[canon(e["from"])].append(e)
+    start = [(canon(i), 0) for i in inits]
+    prev = {s: None for s in start}
+    dq = collections.deque(start)
+    while dq:
+        node, k = cur = dq.popleft()
+        if k == len(preds):
+            w = []
+            while prev[cur] is not None:
+                cur, e = prev[cur]
+                w.append(dict(e["last"], post=e["to"]))
+            return list(reversed(w))
+        for e in out.get(node, ()):
+            nk = k + 1 if preds[k](e["last"]) else k
+            nxt = (canon(e["to"]), nk)
+            if nxt not in prev:
+                prev[nxt] = (cur, e)
+                dq.append(nxt)
+    return None
 
 
 def go_stage(run, mode, scens, out, par, stores=("memory", "db"), timeout=1500, race=True):
@@ -205,7 +245,7 @@ def check(run):
     for b, e in zip(base, lays):
         for v in variants(b, e["sc"], thorough):
             s = dict(e["sc"])
-            s.update(id=v["id"], cfg=v["cfg"], thr=v["thr"], np=v["np"], nw=v["nw"], nb=v["nb"], rd=v["rd"], ro=v["ro"])
+            s.update(id=v["id"], cfg=v["cfg"], thr=v["thr"], np=v["np"], nw=v["nw"], nb=v["nb"], rd=v["rd"], ro=v["ro"], pt=v["pt"])
             v["_sc"] = s
             scens.append(v)
     only = os.environ.get("C15_ONLY")            # development aid: restrict to scenarios whose id starts with this
@@ -230,12 +270,30 @@ def check(run):
         ed = [e for e in edges if e["from"]["sid"] == sid]
         walks, st = edge_cover(ini, ed, maxlen=22, rng=run.rng, extra_walks=(30 if thorough else 4))
         exhaustive = exhaustive and st["covered"] == st["edges"]
-        cap = int(os.environ.get("C15_MAXWALKS", "0") or "0") or (0 if thorough else 16)   # quick: the first walks of each scenario
+        # quick: 16 walks per scenario; thorough: every edge where that takes at most 150 walks, else the first 75 of the
+        # cover plus a seeded sample of 75 of the rest (scenarios with single-chunk reads and background fetch have
+        # graphs of several 10^4 edges)
+        cap = int(os.environ.get("C15_MAXWALKS", "0") or "0") or (150 if thorough else 16)
+        if sid.startswith("big."):
+            cap = 40 if thorough else 4        # megabytes per read: mostly the directed walks below
         if cap and len(walks) > cap:
             # the first walks cover most new edges each; keep a seeded sample of the rest
             rest = walks[cap // 2:]
             run.rng.shuffle(rest)
             walks, exhaustive = walks[:cap // 2] + rest[:cap - cap // 2], False
+        # directed walks for the histories the property's second sentence needs: a single chunk of a multi-chunk file read
+        # on demand, then a successful background fetch, registry off, the complete read (also: prefetch before that)
+        for f in v["pt"]:
+            for k in (1, 2):
+                seqs = [[lambda a, f=f, k=k: a["act"] == "ReadPart" and a["f"] == f and a["k"] == k,
+                         lambda a: a["act"] == "BgFinish" and a["r"] == "ok",
+                         lambda a: a["act"] == "RegistryOff",
+                         lambda a, f=f: a["act"] == "Read" and a["f"] == f]]
+                seqs.append([lambda a: a["act"] == "PrefetchEnd"] + seqs[0])
+                for preds in seqs:
+                    dw = directed_walk(ini, ed, preds)
+                    if dw:
+                        walks.append(dw)
         v["walks"] = [[{k: x for k, x in s.items() if k not in ("post", "req")} | {"act": s["act"]} for s in w] for w in walks]
         nsteps += sum(len(w) for w in v["walks"])
         run.cov["stages"].append(dict(stage="edge-cover", graph=sid, **st))
@@ -262,6 +320,8 @@ def check(run):
         with open(write, "w") as fh:
             for e in events:
                 fh.write(json.dumps(e) + "\n")
+        if os.environ.get("C15_DEBUG"):
+            shutil.copy(write, os.path.join(os.environ["C15_DEBUG"], os.path.basename(write)))
         traces = split_traces(events)
         viol, mr = run.tlc_monitor("PrefetchMonitor", "PrefetchMonitor.cfg", write, timeout=900)
         run.cov["evaluations"] += len(events)
